@@ -13,11 +13,13 @@ import (
 
 // genC13real: the property at the level of the public API on the real operating-system file systems
 // (fs.OS, fs.OSMMap), one directory, random histories of
-//   open     Open by a new opener (must succeed iff no handle is open; otherwise fail, change nothing)
-//   close    Close of the open handle
-//   reclose  Close called AGAIN on a handle that was closed earlier (a deferred Close plus an explicit
-//            one, a signal handler plus main): whatever it returns, it must not disturb the current
-//            owner's lock
+//
+//	open     Open by a new opener (must succeed iff no handle is open; otherwise fail, change nothing)
+//	close    Close of the open handle
+//	reclose  Close called AGAIN on a handle that was closed earlier (a deferred Close plus an explicit
+//	         one, a signal handler plus main): whatever it returns, it must not disturb the current
+//	         owner's lock
+//
 // with the invariant checked after every call: the lock file exists iff a handle is open, and while a
 // handle is open it is the SAME file (device, inode) that handle acquired.
 func genC13real(r *rng, tier string, res *Result) {
